@@ -6,6 +6,7 @@ import Gpc.Driver.Arena
 import Gpc.Driver.Scope
 import Gpc.Driver.Map
 import Gpc.Driver.Array
+import Gpc.Driver.Str
 open Gpc.Proto
 
 /-- state of the stateful models (one operation script at a time) -/
@@ -14,6 +15,7 @@ structure St where
   scopes : List (Nat × Gpc.Driver.ScopeSt) := []
   map : Gpc.Driver.MapSt := {}
   arr : Gpc.Driver.ArrSt := {}
+  str : Gpc.Driver.StrSt := {}
 
 def dispatch (st : St) (toks : List String) : St × String :=
   match toks with
@@ -25,6 +27,7 @@ def dispatch (st : St) (toks : List String) : St × String :=
   | "sc" :: rest => let (a, o) := Gpc.Driver.scopeStep st.scopes rest; ({ st with scopes := a }, o)
   | "map" :: rest => let (a, o) := Gpc.Driver.mapStep st.map rest; ({ st with map := a }, o)
   | "arr" :: rest => let (a, o) := Gpc.Driver.arrStep st.arr rest; ({ st with arr := a }, o)
+  | "str" :: rest => let (a, o) := Gpc.Driver.strStep st.str rest; ({ st with str := a }, o)
   | _ => (st, "bad-op")
 
 partial def loop (h : IO.FS.Stream) (out : IO.FS.Stream) (st : St) : IO Unit := do
